@@ -157,6 +157,10 @@ type opSpec struct {
 	Fam   int       `json:"fam,omitempty"`
 	Query *mQuery   `json:"query,omitempty"`
 	SQL   string    `json:"sql,omitempty"`
+	// Repeat: the statement is executed a second time right away; the second answer is checked like the first.
+	Repeat bool `json:"repeat,omitempty"`
+	// Again: the statement is an earlier statement of the history, issued again after the operations in between.
+	Again bool `json:"again,omitempty"`
 }
 
 var protoType = map[string]protoMetricsV1.SimpleFieldType{
@@ -193,7 +197,8 @@ type env struct {
 	memIDs     map[string]map[uint32]bool   // metric -> series ids written since the engine was started (the shard's in-memory series map)
 	mergedUpTo map[int64]int                // family -> memory database generations below this one were merged by a compaction
 
-	lastNotFound string // text of the "not found" error the last query returned ("" = none)
+	lastNotFound string      // text of the "not found" error the last query returned ("" = none)
+	lastGot      node.Result // answer of the last checked statement
 
 	forcePreRegister bool // regression tests: always register names sequentially (see sigSchemaRace)
 	forceWaitTick    bool // regression tests: never create two memory databases in one clock tick (see sigCreatedTime)
@@ -577,6 +582,7 @@ func currentSemantics() semantics {
 // flush-window tests, where the immutable memory database is observable).
 func (e *env) checkQueryWith(t failer, q mQuery, history func() string, placeOf func(p mPoint) string) (classes []string, nonTrivial bool) {
 	sqlText := q.sql()
+	e.lastGot = nil
 	if ev.Known(sigMemLoadContainer) && e.memLoadContainerShape(q) {
 		return []string{"excluded_known:" + sigMemLoadContainer}, false
 	}
@@ -587,6 +593,7 @@ func (e *env) checkQueryWith(t failer, q mQuery, history func() string, placeOf 
 	if err != nil {
 		t.Fatalf("query failed: %s\n  error: %v\n%s", sqlText, err, history())
 	}
+	e.lastGot = got
 	exp, contributing, qiv := e.mdl.evalWithRisk(q, currentSemantics(), e.riskFamilies(q))
 	cls, nt, msg := compare(exp, got, gotIv, qiv)
 	if msg != "" {
@@ -690,6 +697,12 @@ func (e *env) checkQueryWith(t failer, q mQuery, history func() string, placeOf 
 	for _, a := range q.Cond {
 		classes = append(classes, "cond="+a.Op)
 	}
+	classes = append(classes, selectClasses(q)...)
+	wcls, repeated, proper := e.whereClasses(q)
+	classes = append(classes, wcls...)
+	if repeated && proper && len(got) > 0 {
+		classes = append(classes, classRichFirst)
+	}
 	return classes, nt && len(pls) >= 2
 }
 
@@ -760,12 +773,7 @@ func (e *env) riskFamilies(q mQuery) map[int64]bool {
 	}
 	present, useful := map[src]bool{}, map[src]bool{}
 	for _, s := range mm.Series {
-		matched := true
-		for _, a := range q.Cond {
-			if !a.match(s.Tags) {
-				matched = false
-			}
-		}
+		matched := q.matches(s.Tags)
 		for fname, pts := range s.Fields {
 			for _, p := range pts {
 				k := src{p.Fam, -1}
@@ -879,18 +887,29 @@ type schema struct {
 	Slots   []int       `json:"slots"` // slot of a family; negative: counted from the family's end (-1 = last slot)
 	Metrics []metricDef `json:"metrics"`
 	Coarse  bool        `json:"coarse,omitempty"` // month-/year-type interval (TestQueryModelCoarseIntervals)
+	// Rich (TestQueryModelRichConditions, richcond_test.go): every statement has a generated and/or tree
+	// as its tag condition, drawn mostly from the metric's pool of atoms, and is executed twice.
+	Rich      bool                  `json:"rich,omitempty"`
+	AtomPools map[string][]condNode `json:"atom_pools,omitempty"`
 }
 
 var hostPool = []string{"a1", "a2", "b1", "ab", "ba", "c"}
 var dcPool = []string{"x", "y"}
 
 func genSchema(t *rapid.T) schema {
+	sc := genSchemaBase(t, 3)
+	genSchemaMetrics(t, &sc)
+	return sc
+}
+
+// genSchemaBase draws the storage interval, 1..maxFams families and the slot pool.
+func genSchemaBase(t *rapid.T, maxFams int) schema {
 	var sc schema
 	sc.S = rapid.SampledFrom([]int64{10_000, 10_000, 10_000, 1_000, 5_000, 30_000, 60_000}).Draw(t, "interval")
 	// families: 1-3 different hours, adjacent, with a gap, or across midnight (next segment)
 	day := time.Date(2023, time.Month(rapid.IntRange(1, 12).Draw(t, "month")), rapid.IntRange(1, 28).Draw(t, "day"), 0, 0, 0, 0, time.UTC).UnixMilli()
 	h0 := rapid.SampledFrom([]int{0, 9, 10, 22, 23}).Draw(t, "hour")
-	nf := rapid.IntRange(1, 3).Draw(t, "nFamilies")
+	nf := rapid.IntRange(1, maxFams).Draw(t, "nFamilies")
 	cur := day + int64(h0)*hourMs
 	for i := 0; i < nf; i++ {
 		sc.Fams = append(sc.Fams, cur)
@@ -913,6 +932,10 @@ func genSchema(t *rapid.T) schema {
 			break
 		}
 	}
+	return sc
+}
+
+func genSchemaMetrics(t *rapid.T, sc *schema) {
 	nm := rapid.IntRange(1, 3).Draw(t, "nMetrics")
 	types := []string{tSum, tMin, tMax, tLast, tFirst}
 	for i := 0; i < nm; i++ {
@@ -946,8 +969,7 @@ func genSchema(t *rapid.T) schema {
 		}
 		sc.Metrics = append(sc.Metrics, md)
 	}
-	addIDPlans(t, &sc, 2, 5)
-	return sc
+	addIDPlans(t, sc, 2, 5)
 }
 
 // windowTracker mirrors the write window of the memory database per (family, metric, series, field),
@@ -1087,6 +1109,23 @@ func genQuery(t *rapid.T, sc schema, written map[string]map[string]bool) mQuery 
 	}
 	used := map[string]string{} // field -> aggregate already requested
 	names := map[string]bool{}
+	// one field two or three times with different functions (richcond_test.go)
+	if !absent && !ev.Known(sigMultiFunc) {
+		sameField := false
+		if sc.Rich {
+			sameField = rapid.Bool().Draw(t, "sameFieldItems")
+		} else {
+			sameField = rapid.IntRange(0, 5).Draw(t, "sameFieldItems") == 0
+		}
+		if sameField {
+			for _, it := range genSameFieldItems(t, md.Fields) {
+				names[it.resultName()] = true
+				used[it.Field] = it.Fn
+				q.Items = append(q.Items, it)
+			}
+			ni--
+		}
+	}
 	for i := 0; i < ni; i++ {
 		fd := md.Fields[rapid.IntRange(0, len(md.Fields)-1).Draw(t, "qField")]
 		fns := append([]string{""}, supportedFuncs(fd.Type)...)
@@ -1115,8 +1154,23 @@ func genQuery(t *rapid.T, sc schema, written map[string]map[string]bool) mQuery 
 	if len(q.Items) == 0 {
 		q.Items = []selectItem{{Field: md.Fields[0].Name}}
 	}
-	// tag condition
-	switch rapid.IntRange(0, 7).Draw(t, "condKind") {
+	// tag condition: an and/or tree over a small pool of atoms (richcond_test.go), or the simple forms
+	var richRoot *condNode
+	var richFlat bool
+	if sc.Rich || rapid.IntRange(0, 3).Draw(t, "richWhere") == 0 {
+		pool := sc.AtomPools[md.Name]
+		if len(pool) < 2 || rapid.IntRange(0, 3).Draw(t, "freshAtomPool") == 0 {
+			pool = genAtomPool(t, md)
+		}
+		if len(pool) >= 2 {
+			richRoot, q.WhereKind, richFlat = genRichWhere(t, pool)
+		}
+	}
+	condKind := 7
+	if richRoot == nil {
+		condKind = rapid.IntRange(0, 7).Draw(t, "condKind")
+	}
+	switch condKind {
 	case 0:
 		q.Cond = append(q.Cond, tagAtom{Key: "host", Op: "=", Values: []string{rapid.SampledFrom(hosts).Draw(t, "condHost")}})
 	case 1:
@@ -1145,6 +1199,15 @@ func genQuery(t *rapid.T, sc schema, written map[string]map[string]bool) mQuery 
 			q.GroupBy = []string{rapid.SampledFrom([]string{"dc", "host"}).Draw(t, "gbKey")}
 			if rapid.Bool().Draw(t, "gbBoth") {
 				q.GroupBy = []string{"host", "dc"}
+			}
+		}
+	case 2:
+		if sc.Rich { // any non-empty subset of the metric's keys (every series carries all of them)
+			q.GroupBy = nil
+			for _, k := range md.Keys {
+				if rapid.Bool().Draw(t, "gbHas"+k) {
+					q.GroupBy = append(q.GroupBy, k)
+				}
 			}
 		}
 	}
@@ -1193,6 +1256,9 @@ func genQuery(t *rapid.T, sc schema, written map[string]map[string]bool) mQuery 
 			mults = []int64{1, 2, 3, 6, 12, 48}
 		}
 		q.UserIv = rapid.SampledFrom(mults).Draw(t, "ivMult") * sc.S
+	}
+	if richRoot != nil {
+		setRichWhere(t, &q, richRoot, richFlat)
 	}
 	return q
 }
@@ -1245,9 +1311,29 @@ func genOps(t *rapid.T, sc schema) []opSpec {
 			noteFlush(f)
 		}
 	}
-	ops = append(ops, opSpec{Kind: "write", Rows: note(genRows(t, sc, 8, wt))})
+	// nextQuery: a new statement; in the rich test a quarter of the statements are earlier statements of
+	// the history issued again (whatever was written, flushed or compacted in between)
+	var asked []mQuery
+	nextQuery := func() opSpec {
+		if sc.Rich && len(asked) > 0 && rapid.IntRange(0, 3).Draw(t, "askAgain") == 0 {
+			q := asked[rapid.IntRange(0, len(asked)-1).Draw(t, "askedStatement")]
+			return opSpec{Kind: "query", Query: &q, SQL: q.sql(), Repeat: true, Again: true}
+		}
+		q := genQuery(t, sc, written)
+		asked = append(asked, q)
+		return opSpec{Kind: "query", Query: &q, SQL: q.sql(), Repeat: genRepeat(t, sc, q)}
+	}
+	firstRows := 8
+	if sc.Rich {
+		firstRows = 12
+	}
+	ops = append(ops, opSpec{Kind: "write", Rows: note(genRows(t, sc, firstRows, wt))})
 	for i := 1; i < n; i++ {
-		k := rapid.IntRange(0, 13).Draw(t, "opKind")
+		opKinds := 13
+		if sc.Rich {
+			opKinds = 17 // more statements: they share the atoms of the schema
+		}
+		k := rapid.IntRange(0, opKinds).Draw(t, "opKind")
 		if k == 8 || k == 9 { // a compaction needs a family with >= 2 files, else flush something instead
 			any := false
 			for _, f := range sc.Fams {
@@ -1286,8 +1372,7 @@ func genOps(t *rapid.T, sc schema) []opSpec {
 			wt.flushedAll()
 			noteFlushAll()
 		default:
-			q := genQuery(t, sc, written)
-			ops = append(ops, opSpec{Kind: "query", Query: &q, SQL: q.sql()})
+			ops = append(ops, nextQuery())
 		}
 	}
 	if ev.Known(sigFlushWedged) {
@@ -1307,10 +1392,17 @@ func genOps(t *rapid.T, sc schema) []opSpec {
 	}
 	nq := rapid.IntRange(1, 3).Draw(t, "nFinalQueries")
 	for i := 0; i < nq; i++ {
-		q := genQuery(t, sc, written)
-		ops = append(ops, opSpec{Kind: "query", Query: &q, SQL: q.sql()})
+		ops = append(ops, nextQuery())
 	}
 	return ops
+}
+
+// genRepeat: statements with a generated and/or tree are executed twice (always in the rich test, else half of them).
+func genRepeat(t *rapid.T, sc schema, q mQuery) bool {
+	if q.Where == nil {
+		return false
+	}
+	return sc.Rich || rapid.Bool().Draw(t, "repeat")
 }
 
 func describe(sc schema, ops []opSpec, upto int) string {
@@ -1420,6 +1512,12 @@ func runHistory(t failer, sc schema, ops []opSpec) (classes []string, nonTrivial
 			}
 		case "query":
 			cls, nt := e.checkQuery(t, *op.Query, hist)
+			if op.Repeat {
+				cls = append(cls, e.checkRepeated(t, *op.Query, cls, hist)...)
+			}
+			if op.Again {
+				cls = append(cls, "repeat:earlier-statement-issued-again-later-in-the-history")
+			}
 			for _, c := range cls {
 				if !seen[c] {
 					seen[c] = true
